@@ -42,7 +42,8 @@ CFG = dict(
          "runner.ProcessConsensus, 15-20% of restarts close and reopen the Badger DB; every op is applied to the real objects and to the "
          "Lean model; distinct+non-trivial = (op kind, outcome, node mode, relation of the height to the controller height, instance in "
          "memory / in history, signer count, round) classes computed by the harness",
-    trusted_base=["decided messages are built by aggregating real BLS commit signatures (spec testingutils, 4-operator key set); the model's `ok` input "
+    trusted_base=["key layer: Badger's key is modelled as prefix ++ key (storage/kv/txn.go) and an iterator prefix match as list-prefix; the model sees the (prefix, key) arguments through a recording wrapper around the real in-memory Badger DB; that the database itself keeps distinct keys apart and honours DeletePrefix is exercised by the read-back oracle, not verified",
+                  "decided messages are built by aggregating real BLS commit signatures (spec testingutils, 4-operator key set); the model's `ok` input "
                   "is the verdict of the real Controller.BaseMsgValidation + controller.ValidateDecided on that message",
                   "two-phase duties (begin/decide) use the real baseStartNewDuty with executeDuty stubbed (the pre-consensus phase is external) and the "
                   "real BaseRunner.decide (in-package shim)",
